@@ -391,6 +391,7 @@ func TestC15(t *testing.T) {
 	o.MaxUnits = 6
 	o.BigBase = false
 	o.Scale = false
+	o.ManyTables = 60
 	o.Col = gen.ColumnOpt{NoHeavy: true, NoJSON: true}
 	rapidCheck(t, func(rt *rapid.T) {
 		switch rapid.IntRange(0, 2).Draw(rt, "part") {
@@ -449,7 +450,14 @@ func TestC15(t *testing.T) {
 					maps += len(it.Maps)
 				}
 			}
-			rec.Case(maps >= 2, c, "e2e", fmt.Sprintf("e2e/tables=%d", len(c.H.Tables)))
+			tcl := fmt.Sprintf("e2e/tables=%d", len(c.H.Tables))
+			if len(c.H.Tables) > 100 {
+				tcl = "e2e/tables>100"
+			}
+			if len(c.H.Tables) > 1024 {
+				tcl = "e2e/tables>1024"
+			}
+			rec.Case(maps >= 2, c, "e2e", tcl)
 			journal("C15", "c15e2e", c)
 			if err := checkAttribution(c); err != nil {
 				rec.Violation("c15e2e", c, "", err)
